@@ -628,16 +628,17 @@ class GroupBy:
                 ),
             )
 
+        # look at the indexes before timestamp Series are turned into arrays
+        to_check = list(value_list)
+        if mask is not None and pd.api.types.is_bool_dtype(mask):
+            to_check = [*to_check, mask]
+
         type_list = [None] * len(value_list)
         for i, val in enumerate(value_list):
             if series_is_timestamp(val):
                 value_list[i], type_list[i] = _convert_timestamp_to_tz_unaware(val)
             else:
                 type_list[i] = val.dtype if hasattr(val, "dtype") else val.type
-
-        to_check = value_list
-        if mask is not None and pd.api.types.is_bool_dtype(mask):
-            to_check = [*to_check, mask]
 
         common_index = _validate_input_lengths_and_indexes(to_check)
         input_len = len(to_check[0])
